@@ -115,6 +115,8 @@ func (t *ATable) AddSeparator() Table {
 	t.rows = append(t.rows, sep)
 	sep.inTable = t
 	sep.rowNum = len(t.rows)
+	// errors raised on the separator (adding a cell to it) accumulate in the table
+	sep.ErrorContainer = t.ErrorContainer
 	return t
 }
 
